@@ -11,7 +11,9 @@ M = "vf.contracts.z3rt"
 FUNCTIONS = ["BackendZ3._abstract_internal", "BackendZ3.convert/_op_raw_* (round trip)", "backend_z3.op_map", "backend_z3.op_type_map", "ConstrainedFrontend.simplify"]
 TRUSTED = ["z3.simplify and the tactic pipeline are meaning preserving", "z3 decides the equivalences",
            "the abstraction cache is keyed by the Z3 AST pointer with a reference held (no pointer reuse)"]
-ASSUMPTIONS = ["widths 1, 8, 32, 64 (quick: 1, 8, 64); FLOAT and DOUBLE; string operators are a listed known finding (no reverse mapping)",
+ASSUMPTIONS = ["Z3-only operator kinds (bvsdiv_i, ...) are harvested from what the installed Z3's simplifier and claripy's tactic pipeline return for the hand-built terms",
+               "integer-sorted kinds, IFF, INTERNAL, REPEAT are outside the round trip (reasons in vf/contracts/z3rt.py NOT_ROUNDTRIPPED)",
+               "widths 1, 8, 32, 64 (quick: 1, 8, 64); FLOAT and DOUBLE; string operators are a listed known finding (no reverse mapping)",
                "kinds claripy never emits (bvsmod, implies, arrays, ...) are expected to raise ClaripyError"]
 
 
@@ -20,6 +22,7 @@ def tasks(tier, seed=0):
     out = [task(M, "ob_roundtrip", f"z3rt.bv/roundtrip@w{w}", ["C09"], replay="vf.contracts.z3rt:replay", family="bv", w=w, tier=tier) for w in ws]
     for fam in ("bool", "fp32", "fp64"):
         out.append(task(M, "ob_roundtrip", f"z3rt.{fam}/roundtrip", ["C09"], replay="vf.contracts.z3rt:replay", family=fam, w=0, tier=tier))
+    out.append(task(M, "ob_coverage", "z3rt.coverage/every-mapped-kind-exercised", ["C09"], tier=tier))
     out.append(task(M, "ob_totality", "z3rt.totality/all-claripy-operators", ["C09"], replay="vf.contracts.z3rt:replay", tier=tier))
     out.append(task("vf.contracts.frontend", "ob_simplify", "frontend.ConstrainedFrontend.simplify/models-unchanged", ["C09", "C07"], tier=tier))
     return out
